@@ -61,5 +61,88 @@ UNITS = [
 """),
 ]
 
+PR = "crates/core/src/commands/prune.rs"
+R_ATTRS = Rw("", "", count=None, kind="attrs", why="derive/serde helper attributes removed")
+UNITS += [
+    Unit(name="PackToDo", file=PR, kind="type", anchor="pub enum PackToDo {", attrs="#[derive(Clone, Copy, PartialEq, Eq, Structural)]", rewrites=[R_ATTRS]),
+    Unit(name="RepackReason", file=PR, kind="type", anchor="enum RepackReason {"),
+    Unit(name="PackInfo", file=PR, kind="type", anchor="struct PackInfo {", attrs="#[derive(Clone, Copy)]"),
+    Unit(name="PrunePack", file=PR, kind="type", anchor="struct PrunePack {"),
+    Unit(name="set_todo", file=PR, anchor="fn set_todo(", within="impl PrunePack {",
+         wrap_open="impl PrunePack {", wrap_close="}",
+         functions=["commands::prune::PrunePack::set_todo"],
+         rewrites=[
+             Rw(r"(?m)^\s*stats\.[a-z_.\[\]]+ \+= [^;]*;\n", "\n", regex=True, count=None, why="statistics counters removed (not part of the property)"),
+             Rw(r"(?m)^\s*stats\.debug\.add\([^;]*\);\n", "\n", regex=True, why="debug statistics removed"),
+             Rw('panic!("not possible")', "vunreachable()", why="panic! -> stub requiring unreachability"),
+             Rw("status: EnumSet<PackStatus>,", "status: StatusSet,", sig=True, why="EnumSet<PackStatus> -> opaque status set"),
+         ],
+         contract="""
+    requires
+        todo != PackToDo::Undecided,
+    ensures
+        /*@set_todo_records_decision*/ final(self).to_do == todo,
+        /*@set_todo_frame*/ final(self).delete_mark == old(self).delete_mark && final(self).time == old(self).time && final(self).blob_type == old(self).blob_type,
+"""),
+    Unit(name="decide_one_pack", file=PR, kind="block", within="fn decide_packs(",
+         anchor="match (pack.delete_mark, pi.used_blobs, pi.unused_blobs) {", block_end="@matching_brace",
+         block_sig="fn decide_one_pack(this: &mut VPlan, pack: &mut PrunePack, pi: PackInfo, status: StatusSet, too_young: bool, keep_uncacheable: bool, to_compress: bool, repack_all: bool, size_mismatch: bool, index_num: usize, pack_num: usize)",
+         block_tail="",
+         functions=["commands::prune::PrunePlan::decide_packs (per-pack decision: the `match (delete_mark, used_blobs, unused_blobs)` statement)"],
+         rewrites=[
+             Rw("", "", count=None, kind="log", why="logging removed"),
+             Rw(r"(?m)^\s*self\.stats\.packs\.\w+ \+= 1;\n", "\n", regex=True, count=None, why="statistics counters removed (not part of the property)"),
+             Rw(r"(?m)^\s*(_ = )?status\s*\.insert(_all)?\([^;]*\);\n", "\n", regex=True, count=None, why="informational status flags removed"),
+             Rw(r"status\s*\n\s*\.insert_all\([^;]*\);", "", regex=True, count=None, why="informational status flags removed"),
+             Rw("self.time.saturating_sub(keep_delete).timestamp()\n                                        >= local_date_time", "vdelete_due(&this.delete_limit, &local_date_time)", why="jiff time arithmetic: uninterpreted 'keep-delete time has passed'"),
+             Rw("&mut self.stats", "&mut this.stats", count=None, why="statement-block unit: self -> parameter"),
+             Rw("self.repack_candidates", "this.repack_candidates", count=None, why="statement-block unit: self -> parameter"),
+         ],
+         contract="""
+    requires
+        old(pack).to_do == PackToDo::Undecided,
+    ensures
+        final(pack).delete_mark == old(pack).delete_mark,
+        // --- safety: a pack holding a blob some snapshot still needs is never scheduled for removal ---
+        /*@used_pack_never_removed*/ pi.used_blobs >= 1 ==> final(pack).to_do != PackToDo::MarkDelete && final(pack).to_do != PackToDo::Delete
+              && final(pack).to_do != PackToDo::KeepMarked && final(pack).to_do != PackToDo::KeepMarkedAndCorrect,
+        /*@marked_and_needed_is_recovered*/ old(pack).delete_mark && pi.used_blobs >= 1 ==> final(pack).to_do == PackToDo::Recover,
+        /*@used_unmarked_kept_or_candidate*/ !old(pack).delete_mark && pi.used_blobs >= 1 ==>
+              (final(pack).to_do == PackToDo::Keep && final(this).repack_candidates@ == old(this).repack_candidates@)
+              || (final(pack).to_do == PackToDo::Undecided && final(this).repack_candidates@.len() == old(this).repack_candidates@.len() + 1
+                  && final(this).repack_candidates@.last().3 == index_num && final(this).repack_candidates@.last().4 == pack_num),
+        // --- two-phase deletion ---
+        /*@unused_unmarked_only_marked*/ !old(pack).delete_mark && pi.used_blobs == 0 ==> final(pack).to_do == (if too_young { PackToDo::Keep } else { PackToDo::MarkDelete }),
+        /*@delete_only_after_keep_delete*/ final(pack).to_do == PackToDo::Delete ==> old(pack).delete_mark && pi.used_blobs == 0
+              && (old(pack).time matches Some(t) && delete_due(old(this).delete_limit, t)),
+        /*@marked_unused_not_due_is_kept*/ old(pack).delete_mark && pi.used_blobs == 0 ==> (match old(pack).time {
+              None => final(pack).to_do == PackToDo::KeepMarkedAndCorrect,
+              Some(t) => final(pack).to_do == (if delete_due(old(this).delete_limit, t) { PackToDo::Delete } else { PackToDo::KeepMarked }),
+        }),
+        /*@young_pack_kept*/ too_young && !old(pack).delete_mark ==> final(pack).to_do == PackToDo::Keep,
+"""),
+]
+
+UNITS += [
+    Unit(name="settle_used_blobs", file=PR, kind="block", within="fn check_existing_packs(&mut self)",
+         anchor="match pack.to_do {", block_end="@matching_brace",
+         block_sig="fn settle_used_blobs(this: &mut VPlan2, pack: &VPackRef, existing_size: Option<u32>) -> (r: RusticResult<()>)",
+         block_tail="    Ok(())",
+         functions=["commands::prune::PrunePlan::check_existing_packs (per-pack `match pack.to_do` statement)"],
+         rewrites=[
+             Rw("", "verr()", count=None, kind="err", why="RusticError construction dropped"),
+             Rw("check_size()?;", "vcheck_size(existing_size, pack.size)?;", count=None, why="local closure check_size (size comparison with the listing) -> stub"),
+             Rw("for blob in &pack.blobs {", "for blob in it: pack.blobs.iter() {", why="Verus for-loop syntax"),
+             Rw("_ = self.used_ids.remove(&blob.id);", "let _ = vused_ids_remove(&mut this.used_ids, &blob.id, Ghost(pack.to_do));", why="BTreeMap::remove on used_ids -> effectful stub whose PRECONDITION is 'the pack is a safe holder'"),
+         ],
+         loops={1: "\n                        invariant safe_holder(pack.to_do),\n"},
+         contract="""
+    ensures
+        /*@undecided_pack_is_an_error*/ pack.to_do == PackToDo::Undecided ==> r is Err,
+        /*@kept_and_repacked_packs_must_exist_with_index_size*/ r is Ok && (pack.to_do == PackToDo::Keep || pack.to_do == PackToDo::Recover || pack.to_do == PackToDo::Repack)
+              ==> existing_size == Some(pack.size),
+"""),
+]
+
 KANI = []
 META = {"not_covered": []}
